@@ -467,6 +467,12 @@ class OscBundle(object):
                 if content_size < 0:
                     raise OscBundleParseError(
                         'Negative size of a bundle element')
+                if content_size % 4 != 0:
+                    raise OscBundleParseError(
+                        'Size of a bundle element is not a multiple of 4')
+                if index + content_size > len(self._dgram):
+                    raise OscBundleParseError(
+                        'Size of a bundle element exceeds the datagram')
                 # Get the datagram for the sub content.
                 content_dgram = self._dgram[index:index + content_size]
                 # Increment our position index up to the next possible content.
